@@ -92,7 +92,11 @@ Core == [ok |-> fin.ok, end |-> fin.end, toks |-> ByteToks(fin.toks), ptoks |-> 
          stk |-> ByteStk(fin.stk), trk |-> fin.trk,
          full |-> IF "fullok" \in DOMAIN fin THEN [ok |-> fin.fullok, end |-> fin.fullend, trk |-> fin.fulltrk]
                   ELSE [ok |-> FALSE, end |-> -1, trk |-> fin.trk]]
-Extra == IF EmitMode = "all" THEN [calls |-> ByteCalls(fin.calls), log |-> ByteLog(log), plog |-> ByteLog(fin.log)] ELSE [x |-> 0]
+\* derivation records with byte offsets
+DvB(x) == [f \in DOMAIN x |-> IF f \in {"s", "m", "e"} THEN Off(x[f]) ELSE x[f]]
+ByteDv(q) == [i \in 1..Len(q) |-> DvB(q[i])]
+Extra == IF EmitMode = "all" THEN [calls |-> ByteCalls(fin.calls), log |-> ByteLog(log), plog |-> ByteLog(fin.log)]
+         ELSE IF EmitMode = "dv" THEN [calls |-> ByteCalls(fin.calls), dv |-> ByteDv(fin.dv)] ELSE [x |-> 0]
 Record == IF pc = "done" THEN Base @@ Core @@ Extra ELSE Base
 
 EmitBehaviour == Halted => PrintT(<<"B", ToJson(Record)>>)
